@@ -67,6 +67,25 @@ def geometry(S, cfg):
         cells = g['bypass_params']['area'][i][0] * n_sc[1] + g['bypass_params']['area'][i][1] * 6
         S.eq(f'tiling.bypass[{i}]', cells, sq3 / 2 * (ftf[i + 1][0] * ftf[i + 1][0] - ftf[i][1] * ftf[i][1]))
         S.eq(f'tiling.bypass_total[{i}]', g['bypass_params']['total area'][i], cells)
+    # centroid distances of the bypass cells (what the conduction between gap cells divides by), from the hexagons alone:
+    # edge cells sit on the mid-gap hexagon one pin pitch apart; the corner cell sits on its vertex, which lies
+    # (a_gap - a_row) / sqrt3 beyond the end of the outermost pin row (a = apothem; a_row that of the outer pin centres)
+    a_row = sq3 / 2 * (n - 1) * P
+    # ... and of the coolant cells: interior triangles P/sqrt3 apart; an edge cell's centroid half-way between the outer
+    # pin row and the wall; the corner cell half a corner length beyond the last edge cell
+    to_wall = ftf[0][0] / 2 - a_row
+    S.eq('centroid.interior_interior', g['L'][0][0], P / sq3)
+    S.eq('centroid.interior_edge', g['L'][0][1], P / (2 * sq3) + to_wall / 2)
+    S.eq('centroid.edge_interior', g['L'][1][0], P / (2 * sq3) + to_wall / 2)
+    S.eq('centroid.edge_edge', g['L'][1][1], P)
+    S.eq('centroid.edge_corner', g['L'][1][2], P / 2 + to_wall / sq3 / 2)
+    S.eq('centroid.corner_edge', g['L'][2][1], P / 2 + to_wall / sq3 / 2)
+    for i in range(n_duct - 1):
+        a_gap = (ftf[i][1] + ftf[i + 1][0]) / 4
+        S.eq(f'centroid.bypass_edge_edge[{i}]', g['L'][5][5][i], P)
+        S.eq(f'centroid.bypass_edge_corner[{i}]', g['L'][5][6][i], (a_gap - a_row) / sq3 + P / 2)
+        S.eq(f'centroid.bypass_corner_edge[{i}]', g['L'][6][5][i], (a_gap - a_row) / sq3 + P / 2)
+        S.eq(f'centroid.bypass_corner_corner[{i}]', g['L'][6][6][i], 2 * (a_gap - a_row) / sq3)
     # wall lengths are positive
     for i in range(n_duct):
         S.lt(f'pos.wcorner[{i}]', 0, g['d']['wcorner'][i][0])
